@@ -106,12 +106,19 @@ func modelProgram(prog []refmodel.Stmt, strict bool) *mResult {
 					// the variable comes right behind the group prefix: all such routes of a group share their literal head
 					own = "/{id}" + own
 				}
+				if s.Via == "hyphen" {
+					// a dynamic route whose first segment merely BEGINS with the text of a group prefix used elsewhere ("/api-keys" vs "/api")
+					own = "/api-keys/{id}" + own
+				}
 				if s.Via == "echo" {
 					// the route's own path starts with the text of the enclosing groups' prefix
 					own = prefix + own
 				}
 				addRoute("GET", prefix, own, cat(cat(cat(group, mids...), later...), main...))
 				res.Routes[len(res.Routes)-1].Any = s.Via == "any"
+				if s.Via == "any" {
+					res.Routes[len(res.Routes)-1].Listed = "CONNECT,DELETE,GET,HEAD,OPTIONS,PATCH,POST,PUT,TRACE"
+				}
 				rn++
 			case "notfound":
 				res.NotFound = ids.Take(s.K)
@@ -262,6 +269,9 @@ func execProgram(prog []refmodel.Stmt, sentinel, strict bool, more ...func(*rux.
 					if s.Via == "dyn" {
 						path = "/{id}" + path
 					}
+					if s.Via == "hyphen" {
+						path = "/api-keys/{id}" + path
+					}
 					if s.Via == "echo" {
 						path = gprefix + path
 					}
@@ -335,7 +345,7 @@ func progString(prog []refmodel.Stmt) string {
 				w(s.Body)
 				sb.WriteString("}")
 			case "route":
-				fmt.Fprintf(&sb, "Route%s(mw=%d,laterUse=%d)", map[string]string{"": "", "any": ":Any", "attach": ":NewRoute+Use+AttachTo", "echo": ":own-path-repeats-the-group-prefix", "slash": ":path-ends-in-a-slash", "dup": ":registered-a-second-time-for-the-same-method-and-path", "dyn": ":path-begins-with-a-variable"}[s.Via], s.K, s.K2)
+				fmt.Fprintf(&sb, "Route%s(mw=%d,laterUse=%d)", map[string]string{"": "", "any": ":Any", "attach": ":NewRoute+Use+AttachTo", "echo": ":own-path-repeats-the-group-prefix", "slash": ":path-ends-in-a-slash", "dup": ":registered-a-second-time-for-the-same-method-and-path", "dyn": ":path-begins-with-a-variable", "hyphen": ":/api-keys/{id}/..."}[s.Via], s.K, s.K2)
 			case "controller", "resource":
 				fmt.Fprintf(&sb, "%s(%q,mw=%d)", s.Kind, s.Prefix, s.K)
 			default:
@@ -445,6 +455,19 @@ func progRun(c progCase, mode string, st *fw.Stats) []fw.Viol {
 				sig = "group:chain"
 			}
 			add(sig, fmt.Sprintf("%s (expected chain: global %v then %v): %s", what, m.Global, rt.Chain, diffEvents(got, want)))
+		}
+		if rt.Any {
+			// a route registered with Any() carries the same chain, under the same path, for every method
+			for _, om := range []string{"POST", "DELETE", "OPTIONS"} {
+				if got2, _, pv2 := request(om, rt.Req); pv2 != nil || evString(got2) != evString(want) {
+					sig := "order:route"
+					if mode == "C12" {
+						sig = "group:chain"
+					}
+					add(sig, fmt.Sprintf("%s registered with Any(), requested with %s (panic %v; expected chain: global %v then %v): %s", what, om, pv2, m.Global, rt.Chain, diffEvents(got2, want)))
+					break
+				}
+			}
 		}
 		if mode == "C12" {
 			mr, _, _ := r.Match(rt.Method, rt.Req)
@@ -643,6 +666,7 @@ func progVariants(mode string, depth int, inGroup bool) []refmodel.Stmt {
 	} else {
 		v = append(v, refmodel.Stmt{Kind: "use", K: 1})
 		v = append(v, refmodel.Stmt{Kind: "route", K: 0}, refmodel.Stmt{Kind: "route", K: 1, K2: 1}, refmodel.Stmt{Kind: "route", K: 1, Via: "attach"})
+
 		if inGroup {
 			v = append(v, refmodel.Stmt{Kind: "route", K: 0, Via: "echo"})
 			v = append(v, refmodel.Stmt{Kind: "route", K: 0, Via: "slash"})
@@ -737,6 +761,19 @@ func progSpecials() [][]refmodel.Stmt {
 		[]refmodel.Stmt{g("/api/v1", 0, dyn), g("/api/v2", 0, dyn), g("/api/v1", 0, dyn), dyn},
 		[]refmodel.Stmt{g("/api/v1", 1, dyn1, dyn), g("/api/v2", 1, dyn), g("/api/v1", 1, dyn), g("/api/v3", 0, dyn), g("/api/v2", 0, dyn1)},
 		[]refmodel.Stmt{g("/api", 0, g("/v1", 0, dyn), g("/v2", 0, dyn, dyn), g("/v1", 0, dyn)), g("/api/v2", 0, dyn)},
+	)
+	// routes registered with Any() inside groups (every method carries the chain, under the group's path)
+	anyR := refmodel.Stmt{Kind: "route", K: 1, Via: "any"}
+	out = append(out,
+		[]refmodel.Stmt{g("/g", 1, anyR)},
+		[]refmodel.Stmt{use, g("/g", 2, anyR, g("/h", 0, use, anyR)), anyR},
+		[]refmodel.Stmt{g("/{v}", 1, anyR, route)},
+	)
+	hy := refmodel.Stmt{Kind: "route", K: 0, Via: "hyphen"}
+	out = append(out,
+		[]refmodel.Stmt{g("/api", 0, dyn), hy, route},
+		[]refmodel.Stmt{g("/api", 1, route), hy, g("/api-keys", 0, dyn), hy},
+		[]refmodel.Stmt{hy, g("/api", 0, g("/v1", 0, dyn)), hy, dyn},
 	)
 	for _, k := range []int{1, 2, 3} {
 		out = append(out,
